@@ -10,6 +10,10 @@ import (
 
 // C07 — secure channel chunking round-trips every message under every policy and mode.
 
+// vfMaxSeq: nextSequenceNumber restarts at 1 once the counter exceeds MaxUint32-1023, and
+// channels start with a number in [1, 1023]; larger counter values are unreachable.
+const vfMaxSeq = 4294967295 - 1023
+
 func vfC07Resp(nonce []byte) *ua.ActivateSessionResponse {
 	return &ua.ActivateSessionResponse{
 		ResponseHeader: &ua.ResponseHeader{
@@ -22,7 +26,10 @@ func vfC07Resp(nonce []byte) *ua.ActivateSessionResponse {
 }
 
 func vfPolicyMode() (int, ua.MessageSecurityMode) {
-	pm := vfConcrete(vfInt("policyMode", 0, 2*len(vfSymPolicies)))
+	pm := vfParam("pm", -1)
+	if pm < 0 {
+		pm = vfConcrete(vfInt("policyMode", 0, 2*len(vfSymPolicies)))
+	}
 	if pm == 2*len(vfSymPolicies) {
 		return -1, ua.MessageSecurityModeNone
 	}
@@ -50,7 +57,9 @@ func VerifH_C07_Sizes() {
 		sn[0] = 1
 	}
 	ack := &uacp.Acknowledge{ReceiveBufSize: uint32(cs), SendBufSize: uint32(cs)}
-	snd := vfNewEnd("snd", server, pi, mode, sn, cn, ack, nil, 5, 9, vfU32("seq"))
+	seq := vfU32("seq")
+	vfAssume(seq <= vfMaxSeq)
+	snd := vfNewEnd("snd", server, pi, mode, sn, cn, ack, nil, 5, 9, seq)
 	mbs := int(snd.inst.maxBodySize)
 	vfAssert(mbs > 0 && mbs <= cs-24, "maximum body size out of range")
 
@@ -102,4 +111,50 @@ func VerifH_C07_Sizes() {
 		vfReach("multi")
 	}
 	vfReach("sent")
+}
+
+// RoundTrip: the bytes the sender puts on the wire are fed to the peer's real receive path
+// (uacp.Conn.Receive -> readChunk -> verifyAndDecrypt -> mergeChunks -> DecodeService);
+// the decoded message must equal the original. Chunk size concrete (c07.cs), body bytes and
+// nonces symbolic, body lengths around the chunk boundaries.
+func VerifH_C07_RoundTrip() {
+	pi, mode := vfPolicyMode()
+	cs := vfParam("c07.cs", 8192)
+	cn, sn := vfNonces(pi)
+	ack := &uacp.Acknowledge{ReceiveBufSize: uint32(cs), SendBufSize: uint32(cs), MaxChunkCount: 16, MaxMessageSize: 1 << 24}
+	seq := vfU32("seq")
+	vfAssume(seq <= vfMaxSeq) // invariant of the counter: it restarts at 1 beyond this value
+	snd := vfNewEnd("snd", server, pi, mode, sn, cn, ack, nil, 5, 9, seq)
+	mbs := int(snd.inst.maxBodySize)
+	empty, _ := ua.Encode(vfC07Resp([]byte{}))
+	base := 4 + len(empty)
+	targets := []int{base, mbs, mbs + 1, mbs - 1, base + 1, 2*mbs + 3}
+	nt := vfParam("c07.targets", len(targets))
+	k := vfConcrete(vfInt("target", 0, nt-1))
+	nonce := vfBytes("nonce", targets[k]-base)
+	resp := vfC07Resp(nonce)
+	err := snd.sc.SendMsgWithContext(context.Background(), snd.inst, 77, resp)
+	vfAssert(err == nil, "sending a message fails")
+	if err != nil {
+		return
+	}
+	wire := vfTCPWritten(snd.tcp)
+	rcv := vfNewEnd("rcv", client, pi, mode, cn, sn, ack, wire, 5, 9, 0)
+	msg := rcv.sc.Receive(context.Background())
+	vfAssert(msg != nil && msg.Err == nil, "the peer rejects the chunks the sender produced")
+	if msg == nil || msg.Err != nil {
+		return
+	}
+	vfAssert(msg.RequestID == 77 && msg.SecureChannelID == 5, "request id or channel id changed in transit")
+	got, ok := msg.Response().(*ua.ActivateSessionResponse)
+	vfAssert(ok && got != nil, "the peer decoded a different service type")
+	if !ok || got == nil {
+		return
+	}
+	vfAssert(got.ResponseHeader != nil && got.ResponseHeader.RequestHandle == 7, "response header changed in transit")
+	vfAssert(string(got.ServerNonce) == string(nonce), "message body changed in transit")
+	if vfTCPWrites(snd.tcp) >= 2 {
+		vfReach("multi")
+	}
+	vfReach("delivered")
 }
